@@ -387,7 +387,8 @@ def coq_obs(t, o):
     ct = coq_ty(t)
     fields = [coq_mres(t, o[k]) for k in ("ab", "ba", "aa", "ab_c", "bc", "a_bc")]
     fields += [g_bool(o[k]) for k in ("eq_aa_a", "eq_ab_ba", "eq_assoc", "eq_ab_a", "eq_ba_b")]
-    fields += [g_cmp(o["cmp_ab"]), g_cmp(o["cmp_ba"]), g_bool(o["eq_ab"]), g_bool(o["bot_a"]), g_bool(o["top_a"])]
+    fields += [g_cmp(o["cmp_ab"]), g_cmp(o["cmp_ba"]), g_bool(o["eq_ab"]), g_bool(o["bot_a"]), g_bool(o["top_a"]),
+               g_bool(o["bot_b"]), g_bool(o["top_b"])]
     return "(Build_obs %s %s)" % (ct, " ".join(fields))
 
 
